@@ -1,0 +1,97 @@
+//go:build verif
+
+package catalog
+
+import (
+	"reflect"
+	"sync"
+)
+
+// verifOnceDone reports whether o.Do has completed (read-only, for the verification harness).
+func verifOnceDone(o *sync.Once) bool {
+	d := reflect.ValueOf(o).Elem().FieldByName("done")
+	switch d.Kind() {
+	case reflect.Uint32:
+		return d.Uint() != 0
+	case reflect.Struct:
+		return d.Field(d.NumField()-1).Uint() != 0
+	}
+	return false
+}
+
+func verifSchemaState(where string, s ExchangeSchema) string {
+	switch e := s.(type) {
+	case *ExchangeJSightSchema:
+		if e == nil {
+			return where + ":J:nil"
+		}
+		st := "-"
+		if verifOnceDone(&e.onceCompile) {
+			st = "c"
+			if e.compileErr != nil {
+				st = "e"
+			}
+		}
+		return where + ":J:" + st
+	case *ExchangeRegexSchema:
+		st := "-"
+		if e.example != nil && verifOnceDone(&e.example.once) {
+			st = "x"
+		}
+		return where + ":R:" + st
+	case nil:
+		return where + ":nil"
+	default:
+		return where + ":P:."
+	}
+}
+
+// VerifLazyState lists, in the order the catalog is serialised, every exchange schema with the
+// state of its lazily computed part: J (JSight schema) "-" not compiled yet, "c" compiled,
+// "e" compilation failed; R (regex schema) "-" no example yet, "x" example generated;
+// P pseudo schema (any / empty) has none.
+func (c *Catalog) VerifLazyState() []string {
+	var out []string
+	_ = c.UserTypes.Each(func(k string, v *UserType) error {
+		out = append(out, verifSchemaState("type "+k, v.Schema))
+		return nil
+	})
+	_ = c.Interactions.Each(func(k InteractionID, v Interaction) error {
+		id := k.String()
+		switch i := v.(type) {
+		case *HTTPInteraction:
+			if i.PathVariables != nil {
+				out = append(out, verifSchemaState(id+" pathVariables", i.PathVariables.Schema))
+			}
+			if i.Query != nil {
+				out = append(out, verifSchemaState(id+" query", i.Query.Schema))
+			}
+			if i.Request != nil {
+				if i.Request.HTTPRequestHeaders != nil {
+					out = append(out, verifSchemaState(id+" request headers", i.Request.HTTPRequestHeaders.Schema))
+				}
+				if i.Request.HTTPRequestBody != nil {
+					out = append(out, verifSchemaState(id+" request body", i.Request.HTTPRequestBody.Schema))
+				}
+			}
+			for n := range i.Responses {
+				r := &i.Responses[n]
+				if r.Headers != nil {
+					out = append(out, verifSchemaState(id+" response "+r.Code+" headers", r.Headers.Schema))
+				}
+				if r.Body != nil {
+					out = append(out, verifSchemaState(id+" response "+r.Code+" body", r.Body.Schema))
+				}
+			}
+		case *JsonRpcInteraction:
+			if i.Params != nil {
+				out = append(out, verifSchemaState(id+" params", i.Params.Schema))
+			}
+			if i.Result != nil {
+				out = append(out, verifSchemaState(id+" result", i.Result.Schema))
+			}
+		}
+		return nil
+	})
+	return out
+}
